@@ -581,6 +581,16 @@ def rule_file2b(prog, rep, tier, anchor="conformance._conform_filename"):
             rep.violation(Finding("FILE-2b", anchor, "rewrite-unguarded",
                                   "the in-place rewrite %s is not control-dependent on an inequality test between the found node and its "
                                   "replacement: a second run rewrites/reports although nothing differs" % src(node, 80), loc(prog, node)))
+    # the modes the worker hands to emit.file: create/rewrite truncates ("w"), append appends ("a"); an update mode ("r+",
+    # "w+", "a+") rewrites from the start without truncating, or reads through the write handle
+    for node in ast.walk(fi.node):
+        if isinstance(node, ast.Call) and any(isinstance(t, FunctionInfo) and t.qualname == "emit.file" for t in prog.resolve_expr_fn(node.func, node)):
+            m = kwarg(node, "mode", 2)
+            if isinstance(m, ast.Constant) and isinstance(m.value, str) and ("r" in m.value or "+" in m.value):
+                n += 1
+                rep.violation(Finding("FILE-2b", anchor, "update-mode:%s" % m.value,
+                                      "%s writes the re-emitted module with mode %r: the file is overwritten from the start without being truncated, so when the new text is "
+                                      "shorter the tail of the old text stays behind" % (src(node, 60), m.value), loc(prog, node)))
     if n == 0:
         raise AnalysisError("FILE-2b: no in-place rewrite (emit.file mode 'w') found in %s" % anchor)
 
@@ -684,6 +694,24 @@ def rule_file3(prog, rep, tier, armed=("emit.file",), informational=("gen.gen",)
                        "output file cannot pre-exist on the CLI path (FILE-6 guard) and no raising input is known")
             else:
                 rep.holds("FILE-3", "%s: with open(...) body only writes a pre-rendered value" % q, loc(prog, w), "")
+    # FILE-3b: the rendering / formatting steps are what parses the text before it is written: an exception raised there
+    # must abort the write - a handler that swallows it (body of pass / continue only) lets an unparseable module through
+    for q in armed:
+        fi = prog.inl(prog.fn(q))
+        for tr in ast.walk(fi.node):
+            if not isinstance(tr, ast.Try):
+                continue
+            renders = [c for b in tr.body for c in ast.walk(b) if isinstance(c, ast.Call) and isinstance(c.func, (ast.Name, ast.Attribute))
+                       and ((prog.ext_name(c.func, c) or "").startswith("black.") or any(isinstance(t, FunctionInfo) and t.qualname in ("source_transformer.to_code",) for t in prog.resolve_expr_fn(c.func, c)))]
+            if not renders:
+                continue
+            for h in tr.handlers:
+                if all(isinstance(s_, (ast.Pass, ast.Continue)) or (isinstance(s_, ast.Expr) and isinstance(s_.value, ast.Constant)) for s_ in h.body):
+                    n += 1
+                    rep.violation(Finding("FILE-3", q, "render-error-swallowed:%s" % (src(h.type, 30) if h.type is not None else "bare"),
+                                          "an error raised by %s is caught and ignored (except %s: pass): the formatter is the step that parses the rendered text, so an "
+                                          "unparseable module is now written and the run reports success" % (src(renders[0].func, 30), src(h.type, 30) if h.type is not None else ""),
+                                          loc(prog, h)))
     if n == 0:
         raise AnalysisError("FILE-3: no write-capable `with open` found in %s" % (armed + informational,))
 
@@ -820,6 +848,30 @@ def rule_file5(prog, rep, tier, anchor="emit.file"):
                 "%s can be opened in append mode (callers: %s) and writes its text verbatim: appended to a file whose last line has no "
                 "newline the definition is glued to it and the file no longer parses"
                 % (anchor, ", ".join(sorted({c.qualname for c, _ in appenders if c}))), loc(prog, w)))
+    # FILE-5c: what is already in the file cannot be read through the handle that appends: a stream opened with "a" / "a+"
+    # is positioned at the end, so read() returns "" unless seek(0) came first - the newline test would never fire
+    for w, it in _with_opens(prog, fi):
+        kind, mexpr = open_mode(prog, it.context_expr)
+        mode_text = mexpr.value if isinstance(mexpr, ast.Constant) and isinstance(mexpr.value, str) else None
+        may_append = kind == "append" or (kind == "var" and any(isinstance(x, ast.Constant) and isinstance(x.value, str) and x.value.startswith("a")
+                                                               for x in ast.walk(mexpr))) or (kind == "var" and mode_text is None)
+        hv = it.optional_vars.id if isinstance(it.optional_vars, ast.Name) else None
+        if not may_append or hv is None:
+            continue
+        reads = [c for c in ast.walk(w) if isinstance(c, ast.Call) and isinstance(c.func, ast.Attribute) and c.func.attr in ("read", "readline", "readlines")
+                 and isinstance(c.func.value, ast.Name) and c.func.value.id == hv]
+        for r in reads:
+            seeks = [c for c in ast.walk(w) if isinstance(c, ast.Call) and isinstance(c.func, ast.Attribute) and c.func.attr == "seek" and isinstance(c.func.value, ast.Name)
+                     and c.func.value.id == hv and order_key(c) < order_key(r)]
+            n += 1
+            if seeks:
+                rep.holds("FILE-5", "%s: %s after seek" % (anchor, src(r, 30)), loc(prog, r), "")
+            else:
+                ok_all = False
+                rep.violation(Finding("FILE-5", anchor, "read-through-append-handle",
+                                      "%s reads the existing content through a handle that may be opened for appending (%s): such a stream starts at the end of the file, the "
+                                      "read returns nothing, and the test that decides whether a separating newline is needed never fires"
+                                      % (src(r, 30), src(it.context_expr, 50)), loc(prog, r)))
     if n == 0:
         raise AnalysisError("FILE-5: %s has append callers but no append-capable open was found" % anchor)
 
@@ -1030,6 +1082,50 @@ def rule_file7(prog, rep, tier, worker="sync_properties.sync_properties", per_pa
         rep.holds("FILE-7", "every returning path after .visit() asserts .replaced", loc(prog, visit_stmt), "%d paths" % total)
 
 
+def rule_file2d(prog, rep, tier, anchor="conformance._conform_filename"):
+    """FILE-2d: the existence test that decides between creating a target and editing it looks at the same canonical form
+    of the path that is then written: `isfile(P)` guarding a write to `Q` needs the same os.path normalisations on P and Q
+    (a `~` or symlinked spelling otherwise takes the create branch for a file that exists, and overwrites it)."""
+    fi = prog.inl(prog.fn_role(anchor, "conform_file"))
+    n = 0
+    for node in ast.walk(fi.node):
+        if not (isinstance(node, ast.Call) and any(isinstance(t, FunctionInfo) and t.qualname == "emit.file" for t in prog.resolve_expr_fn(node.func, node))):
+            continue
+        q = kwarg(node, "filename", 1)
+        if q is None:
+            continue
+        tests = []
+        for t, pol in expr_guards(node, stop=fi.node):
+            for a, p in _resolved_facts(fi, t, pol):
+                if isinstance(a, ast.Call) and isinstance(a.func, (ast.Name, ast.Attribute)) and prog.ext_name(a.func, a) in ("os.path.isfile", "os.path.exists") and a.args:
+                    tests.append(a)
+        for a in tests:
+            n += 1
+            g_nf, w_nf = _closure(path_nf(prog, a.args[0], fi, follow_callers=False)), _closure(path_nf(prog, q, fi, follow_callers=False))
+            if g_nf == w_nf:
+                rep.holds("FILE-2d", "%s tested and written in the same canonical form (%s)" % (src(q, 30), sorted(w_nf) or "as given"), loc(prog, node), "")
+            else:
+                rep.violation(Finding("FILE-2d", anchor, "existence-test-on-other-spelling",
+                                      "%s decides the branch, but the path written, %s, has gone through %s while the tested one has gone through %s: for a `~` or "
+                                      "symlinked spelling the test looks at a different file than the one written"
+                                      % (src(a, 50), src(q, 30), sorted(w_nf) or "nothing", sorted(g_nf) or "nothing"), loc(prog, a)))
+    if n == 0:
+        raise AnalysisError("FILE-2d: no write of %s is guarded by an existence test" % anchor)
+
+
+def _resolved_facts(fi, test, pol):
+    """facts of a guard with local names standing for a test replaced by their (single, earlier) definition"""
+    out = []
+    for a, p in facts(test, pol):
+        if isinstance(a, ast.Name):
+            ds = _defs_reaching(fi, a)
+            if len(ds) == 1:
+                out.extend(facts(ds[0], p))
+                continue
+        out.append((a, p))
+    return out
+
+
 def rule_file2c(prog, rep, tier, anchor="conformance._conform_filename"):
     """FILE-2c (C09): a target that exists and whose definition was found is left unwritten only because its syntax tree
     equals the replacement (or the transformer reported no replacement); any other reason to skip leaves a stale target."""
@@ -1095,6 +1191,27 @@ def _closure(nf):
     return nf
 
 
+def _defs_reaching(fi, use):
+    """value expressions of the assignments to the name `use` that precede it in execution order: plain and tuple
+    assignments (element-wise); an assignment whose right-hand side contains the use itself does not count (the
+    right-hand side is evaluated before the name is rebound)"""
+    out = []
+    has_pos = hasattr(use, "lineno")
+    for st in ast.walk(fi.node):
+        if not isinstance(st, ast.Assign):
+            continue
+        if has_pos and (order_key(st) > order_key(use) or any(x is use for x in ast.walk(st.value))):
+            continue
+        for t in st.targets:
+            if isinstance(t, ast.Name) and t.id == use.id:
+                out.append(st.value)
+            elif isinstance(t, (ast.Tuple, ast.List)) and isinstance(st.value, (ast.Tuple, ast.List)) and len(t.elts) == len(st.value.elts):
+                for te, ve in zip(t.elts, st.value.elts):
+                    if isinstance(te, ast.Name) and te.id == use.id:
+                        out.append(ve)
+    return out
+
+
 def path_nf(prog, e, fi, depth=0, follow_callers=True):
     """set of os.path canonicalisation functions applied to reach the value of expression e in function fi"""
     if depth > 6 or e is None:
@@ -1112,7 +1229,7 @@ def path_nf(prog, e, fi, depth=0, follow_callers=True):
                 return out | path_nf(prog, e.args[0], fi, depth + 1, follow_callers)
         return set()
     if isinstance(e, ast.Name) and fi is not None:
-        defs = [st.value for st in ast.walk(fi.node) if isinstance(st, ast.Assign) and any(isinstance(t, ast.Name) and t.id == e.id for t in st.targets) and st.lineno <= getattr(e, "lineno", 10 ** 9)]
+        defs = _defs_reaching(fi, e)
         out = set()
         for d in defs:
             # a rebinding `x = f(x)` contributes f and keeps following the previous value of x
